@@ -128,6 +128,14 @@ def judgeDec (c : Codec) (s : Bytes) (impl : String) (orig : Option (Bytes × St
   else "BAD impl outcome"
 
 def handle : List String → String
+  | ["alias", codec, gets, puts, failed, wrong, changed] =>
+    -- a real region client with cellblock compression: what was decompressed and handed to the
+    -- caller is what the server sent, and stays so while later requests and responses go by
+    if gets = "gets=0" then s!"DIFF harness: no Get was answered ({failed})"
+    else if failed ≠ "failed=0" then s!"DIFF harness: alias scenario {failed}"
+    else if wrong ≠ "wrong=0" then s!"SPEC key=wrong-data-delivered-{codec} {wrong} of {gets} results differ from what the server compressed"
+    else if changed ≠ "changed=0" then s!"SPEC key=delivered-data-changed-later-{codec} {changed} results changed after later requests ({puts})"
+    else s!"OK tags=alias,{codec}"
   | ["comp", codec, ulen, bufs, impl] =>
     match parseCodec codec, ulen.toNat?, parseBufs bufs with
     | some c, some ulen, some bufs =>
